@@ -281,8 +281,12 @@ func (fc *funcCtx) appendCall(st *State, ins ssa.Instruction, com *ssa.CallCommo
 				// the common single-element append, stated without a quantifier
 				st.assume(app("=", app("select", app("select", nh, ref), elemIx(off, dst.Len)), app("select", app("select", srcH, src.Ref), elemIx(src.Off, "0"))))
 			}
-			// in place: cells of the row outside [off+len, off+len+n) keep their value
-			st.assume(fmt.Sprintf("(=> %s (forall ((j Int)) (! (=> (or (< j (gs.ix %s %s)) (>= j (+ (gs.ix %s %s) %s))) (= (select (select %s %s) j) (select (select %s %s) j))) :pattern ((select (select %s %s) j)))))", inPlace, off, dst.Len, off, dst.Len, n, nh, ref, h, dst.Ref, nh, ref))
+			// in place: cells of the row outside the appended range keep their value
+			if n == "1" {
+				st.assume(fmt.Sprintf("(=> %s (forall ((j Int)) (! (=> (not (= j %s)) (= (select (select %s %s) j) (select (select %s %s) j))) :pattern ((select (select %s %s) j)))))", inPlace, elemIx(off, dst.Len), nh, ref, h, dst.Ref, nh, ref))
+			} else {
+				st.assume(fmt.Sprintf("(=> %s (forall ((j Int)) (! (=> (or (< j (+ %s %s)) (>= j (+ %s %s %s))) (= (select (select %s %s) j) (select (select %s %s) j))) :pattern ((select (select %s %s) j)))))", inPlace, off, dst.Len, off, dst.Len, n, nh, ref, h, dst.Ref, nh, ref))
+			}
 			st.heaps[l.key] = nh
 		}
 		if fc.frameChecked() {
